@@ -324,3 +324,204 @@ package agent
 // reversal preserves counts (induction from the left end)
 //@ lemma[C09,C03] cnt_cons uses nothing measure ite(hi > lo, hi - lo, 0): forall s Seq, lo Int, hi Int, x U :: { cnt(s, lo, hi, x) } lo < hi ==> cnt(s, lo, hi, x) == ite(s[lo] == x, 1, 0) + cnt(s, lo + 1, hi, x)
 //@ lemma[C09,C03] cnt_rev uses cnt_cons measure ite(m > 0, m, 0): forall s Seq, t Seq, n Int, m Int, k Int, x U :: { cnt(s, 0, m, x), cnt(t, k, n, x) } k == n - m && 0 <= m && m <= n && (forall i :: 0 <= i && i < m ==> s[i] == t[n - 1 - i]) ==> cnt(s, 0, m, x) == cnt(t, k, n, x)
+
+// ---------------------------------------------------------------- collator: leaf rankers (C07, C08)
+
+//@ declare cabs(Cplx) F64
+//@ declare cphase(Cplx) F64
+//@ assume func cmplx.Abs
+//@   nopanic
+//@   ensures result == cabs($1)
+//@ assume func cmplx.Phase
+//@   nopanic
+//@   ensures result == cphase($1)
+
+//@ define brank(a, b) := ite(!a && b, 0, ite(a && !b, 2, 1))
+//@ define irank(a, b) := ite(a < b, 0, ite(a > b, 2, 1))
+//@ define frank(a, b) := ite(flt(a, b), 0, ite(fgt(a, b), 2, 1))
+//@ define srank(a, b) := ite(slt(a, b), 0, ite(slt(b, a), 2, 1))
+//@ define crank(a, b) := ite(cgoeq(a, b), 1, ite(flt(cabs(a), cabs(b)), 0, ite(fgt(cabs(a), cabs(b)), 2, ite(flt(cphase(a), cphase(b)), 0, ite(fgt(cphase(a), cphase(b)), 2, 1)))))
+
+//@ func (*collator_).rankBooleans
+//@   props C07 C08
+//@   nopanic
+//@   noinv
+//@   ensures[C07] result == brank(first, second)
+//@ func (*collator_).rankBytes
+//@   props C07 C08
+//@   nopanic
+//@   noinv
+//@   ensures[C07] result == irank(first, second)
+//@ func (*collator_).rankRunes
+//@   props C07 C08
+//@   nopanic
+//@   noinv
+//@   ensures[C07] result == irank(first, second)
+//@ func (*collator_).rankSigned
+//@   props C07 C08
+//@   nopanic
+//@   noinv
+//@   ensures[C07] result == irank(first, second)
+//@ func (*collator_).rankUnsigned
+//@   props C07 C08
+//@   nopanic
+//@   noinv
+//@   ensures[C07] result == irank(first, second)
+//@ func (*collator_).rankFloats
+//@   props C07 C08
+//@   nopanic
+//@   noinv
+//@   ensures[C07] result == frank(first, second)
+//@ func (*collator_).rankComplex
+//@   props C07 C08
+//@   nopanic
+//@   noinv
+//@   ensures[C07] result == crank(first, second)
+//@ func (*collator_).rankStrings
+//@   props C07 C08
+//@   nopanic
+//@   noinv
+//@   ensures[C07] result == srank(first, second)
+
+// the natural rank of each primitive kind is a total preorder that agrees with Go's ==
+//@ lemma[C07] brank_preorder: forall a Bool, b Bool, c Bool :: brank(a, a) == 1 && brank(a, b) == 2 - brank(b, a) && (brank(a, b) <= 1 && brank(b, c) <= 1 ==> brank(a, c) <= 1)
+//@ lemma[C07] irank_preorder: forall a Int, b Int, c Int :: irank(a, a) == 1 && irank(a, b) == 2 - irank(b, a) && (irank(a, b) <= 1 && irank(b, c) <= 1 ==> irank(a, c) <= 1)
+//@ lemma[C07] srank_preorder: forall a Str, b Str, c Str :: srank(a, a) == 1 && srank(a, b) == 2 - srank(b, a) && (srank(a, b) <= 1 && srank(b, c) <= 1 ==> srank(a, c) <= 1)
+//@ lemma[C07] frank_refl_mirror: forall a F64, b F64 :: frank(a, a) == 1 && frank(a, b) == 2 - frank(b, a)
+//@ lemma[C07] frank_trans: forall a F64, b F64, c F64 :: frank(a, b) <= 1 && frank(b, c) <= 1 ==> frank(a, c) <= 1
+//@ lemma[C08] brank_agrees: forall a Bool, b Bool :: (a == b) <==> brank(a, b) == 1
+//@ lemma[C08] irank_agrees: forall a Int, b Int :: (a == b) <==> irank(a, b) == 1
+//@ lemma[C08] srank_agrees: forall a Str, b Str :: (a == b) <==> srank(a, b) == 1
+//@ lemma[C08] frank_agrees: forall a F64, b F64 :: feq(a, b) <==> frank(a, b) == 1
+//@ lemma[C07] crank_refl_mirror: forall a Cplx, b Cplx :: (!isnan(cre(a)) && !isnan(cim(a)) ==> crank(a, a) == 1) && crank(a, b) == 2 - crank(b, a)
+//@ lemma[C07] crank_trans: forall a Cplx, b Cplx, c Cplx :: crank(a, b) <= 1 && crank(b, c) <= 1 ==> crank(a, c) <= 1
+//@ lemma[C08] crank_agrees: forall a Cplx, b Cplx :: cgoeq(a, b) <==> crank(a, b) == 1
+
+// ---------------------------------------------------------------- collator: depth discipline and termination (C08, C07)
+
+// remaining(it): number of entries a reflect.MapIter still has to deliver (ghost)
+//@ model remaining Int
+//@ assume func (*reflect.MapIter).Next
+//@   nopanic
+//@   modifies remaining(this)
+//@   ensures old(remaining(this)) >= 0 && (result ==> old(remaining(this)) > 0 && remaining(this) == old(remaining(this)) - 1) && (!result ==> remaining(this) == old(remaining(this)))
+//@ assume func (reflect.Value).MapRange
+//@   nopanic
+//@   ensures fresh(result) && result != nil && remaining(result) >= 0
+
+//@ type *collator_
+//@   invariant[C08] 0 <= this.depth_ && this.depth_ <= this.maximum_
+
+// The private traversal functions keep the depth counter balanced on normal exits (a panic may leave it
+// raised; the public methods must restore it), and their mutual recursion is bounded by the variant
+// (maximum_ - depth_, rank of the function, pointer nesting of the first operand).
+//@ declare ptrh(U) Int
+//@ declare rlen(U) Int
+//@ assume func (reflect.Value).Len
+//@   nopanic
+//@   ensures result == rlen(this) && result >= 0
+//@ assume func (reflect.Value).MapKeys
+//@   nopanic
+//@   ensures fresh(result) && len(result) == rlen(this)
+//@ assume func (reflect.Value).Elem
+//@   nopanic
+//@   ensures ptrh(result) >= 0 && ptrh(result) < ptrh(this)
+//@ func (*collator_).compareValues
+//@   props C08
+//@   modifies this.depth_
+//@   decreases this.maximum_ - this.depth_, 3, ptrh(first)
+//@   ensures[C08] this.depth_ == old(this.depth_)
+//@ func (*collator_).compareArrays
+//@   props C08
+//@   modifies this.depth_
+//@   decreases this.maximum_ - this.depth_, 1
+//@   ensures[C08] this.depth_ == old(this.depth_)
+//@   loop 1:
+//@     invariant 0 <= i && this.depth_ == old(this.depth_) && this.depth_ < this.maximum_
+//@     decreases size - i
+//@ func (*collator_).compareMaps
+//@   props C08
+//@   modifies this.depth_
+//@   decreases this.maximum_ - this.depth_, 1
+//@   ensures[C08] this.depth_ == old(this.depth_)
+//@   loop 1:
+//@     invariant this.depth_ == old(this.depth_) && this.depth_ < this.maximum_ && remaining(iterator) >= 0 && iterator != nil
+//@     decreases remaining(iterator)
+//@ func (*collator_).compareSequences
+//@   props C08
+//@   modifies this.depth_
+//@   decreases this.maximum_ - this.depth_, 2
+//@   ensures[C08] this.depth_ == old(this.depth_)
+//@ func (*collator_).compareInterfaces
+//@   props C08
+//@   modifies this.depth_
+//@   decreases this.maximum_ - this.depth_, 2
+//@   ensures[C08] this.depth_ == old(this.depth_)
+//@   loop 1:
+//@     invariant 0 <= index && this.depth_ == old(this.depth_) && this.depth_ < this.maximum_
+//@     decreases count - index
+//@ func (*collator_).compareIntrinsics
+//@   props C08
+//@   ensures[C08] this.depth_ == old(this.depth_)
+//@ func (*collator_).CompareValues
+//@   props C08
+//@   modifies this.depth_
+//@   ensures[C08] this.depth_ == old(this.depth_)
+//@   xensures[C08] this.depth_ == old(this.depth_)
+//@ func (*collator_).getType
+//@   nilok
+//@   noverify
+//@   trusted
+//@   pure
+//@   nopanic
+
+//@ func (*collator_).rankValues
+//@   props C08 C07
+//@   modifies this.depth_
+//@   decreases this.maximum_ - this.depth_, 3, ptrh(first)
+//@   ensures[C08] this.depth_ == old(this.depth_)
+//@ func (*collator_).rankArrays
+//@   props C08 C07
+//@   modifies this.depth_
+//@   decreases this.maximum_ - this.depth_, 1, ite(rlen(first) > rlen(second), 1, 0)
+//@   ensures[C08] this.depth_ == old(this.depth_)
+//@   loop 1:
+//@     invariant 0 <= i && this.depth_ == old(this.depth_) && this.depth_ < this.maximum_
+//@     decreases firstSize - i
+//@ func (*collator_).rankMaps
+//@   props C08 C07
+//@   modifies this.depth_
+//@   decreases this.maximum_ - this.depth_, 1, ite(rlen(first) > rlen(second), 1, 0)
+//@   ensures[C08] this.depth_ == old(this.depth_)
+//@   loop 1:
+//@     invariant 0 <= i && this.depth_ == old(this.depth_) && this.depth_ < this.maximum_
+//@     decreases firstSize - i
+//@ func (*collator_).rankSequences
+//@   props C08 C07
+//@   modifies this.depth_
+//@   decreases this.maximum_ - this.depth_, 2
+//@   ensures[C08] this.depth_ == old(this.depth_)
+//@ func (*collator_).rankInterfaces
+//@   props C08 C07
+//@   modifies this.depth_
+//@   decreases this.maximum_ - this.depth_, 2
+//@   ensures[C08] this.depth_ == old(this.depth_)
+//@   loop 1:
+//@     invariant 0 <= index && this.depth_ == old(this.depth_) && this.depth_ < this.maximum_
+//@     decreases count - index
+//@ func (*collator_).rankStructures
+//@   props C08 C07
+//@   modifies this.depth_
+//@   decreases this.maximum_ - this.depth_, 2
+//@   ensures[C08] this.depth_ == old(this.depth_)
+//@   loop 1:
+//@     invariant 0 <= index && this.depth_ == old(this.depth_) && this.depth_ < this.maximum_
+//@     decreases count - index
+//@ func (*collator_).rankIntrinsics
+//@   props C08 C07
+//@   ensures[C08] this.depth_ == old(this.depth_)
+//@ func (*collator_).RankValues
+//@   props C08 C07
+//@   modifies this.depth_
+//@   ensures[C08] this.depth_ == old(this.depth_)
+//@   xensures[C08] this.depth_ == old(this.depth_)
